@@ -12,6 +12,20 @@ over a fixed horizon T with n, 2n, 4n fixed steps (both signs of dt for a subset
 import json, math, random, sys
 import rebound
 
+import os
+
+_PROGRESS = os.environ.get("C01_PROGRESS")
+
+
+def progress(name, **opts):
+    """heartbeat: the scenario about to run is appended to $C01_PROGRESS, so that a hang or a crash of the library can be
+    reported by the harness with the concrete input that was running."""
+    if _PROGRESS:
+        with open(_PROGRESS, "a") as f:
+            f.write(json.dumps(dict(opts, name=name), default=str) + "\n")
+            f.flush(); os.fsync(f.fileno())
+
+
 FLOOR = 3e-12     # errors below this are rounding dominated: not judged
 MARGIN = 0.75
 
@@ -246,6 +260,7 @@ def lattice(tier):
 def adaptive_checks(seed, T):
     """IAS15 / BS (+ a user ODE): error against the reference shrinks (does not grow) when the tolerance is tightened."""
     out = []
+    progress("adaptive (ias15 / bs tolerance ladders)", system_seed=seed, T=T)
     ref = reference(seed, T, False, 1.0)
     errs = []
     for eps in (1e-3, 1e-6, 1e-9):
@@ -310,6 +325,8 @@ def ode_checks(seed, tier):
         sim.dt = sign * dt
         return sim
     def osc(integ, dt, w, T, eps, sign):
+        progress("ode/%s" % integ, system_seed=seed, integrator=integ, dt=sign * dt, omega=w, T=sign * T, eps=eps,
+                 what="harmonic oscillator y''=-w^2 y as user ODE, sim.integrate(T)")
         sim = base(integ, dt, sign)
         sim.ri_bs.eps_rel = eps; sim.ri_bs.eps_abs = eps
         ode = sim.create_ode(length=2, needs_nbody=False)
@@ -339,6 +356,7 @@ def ode_checks(seed, tier):
     # an ODE that needs the N-body state: y' = x of planet 1.  Coupled (BS): error shrinks with eps.  Decoupled (WHFast etc.):
     # documented first-order coupling error (positions frozen at the end of the step): must at least halve when dt is halved twice.
     def nb(integ, dt, eps):
+        progress("ode-nbody/%s" % integ, system_seed=seed, integrator=integ, dt=dt, eps=eps)
         sim = base(integ, dt, 1)
         sim.ri_bs.eps_rel = eps; sim.ri_bs.eps_abs = eps
         ode = sim.create_ode(length=1, needs_nbody=True)
@@ -382,6 +400,7 @@ def warn_once_checks(seed, tier):
     def compare(a, b):
         return max(max(abs(getattr(p, c) - getattr(q, c)) for c in ("x", "y", "z", "vx", "vy", "vz")) for p, q in zip(a.particles, b.particles))
     def scenario(name, build, trigger, steps_between=3, rounds=4, with_ode=False):
+        progress("warn-once/" + name, system_seed=seed)
         with _w.catch_warnings():
             _w.simplefilter("ignore")
             a = build()
@@ -536,6 +555,7 @@ def history_checks(seed, tier):
                 # particles must not change between steps (observed there: WHFast corrector 11 / SABA CM2 end in NaN after the merge).
                 if iname == "merging collision" and (adaptive or pt["integrator"] in ("mercurius", "trace") or pt.get("safe_mode") == 0):
                     continue
+                progress("history/%s/%s" % (fname, iname), system_seed=seed, options=dict(pt, dt=dt))
                 try:
                     a = build(); configure(a, pt); a.dt = dt
                     if adaptive:
@@ -574,6 +594,141 @@ def history_checks(seed, tier):
     return out
 
 
+def corner_checks(seed, tier):
+    """The edges of what C01 quantifies over: N = 0, 1, 2; massless planets; e = 0 / inc = 0, inc = pi, e = 0.9; G and units of very
+    different magnitude; a start time far from 0; dt = 0, -0.0, NaN; and the behaviour of the same object after an error path
+    (invalid option -> error -> corrected option).  Every integrator family; nothing may crash or hang, results stay finite,
+    agree with the closed form where there is one, and converge at (at least) the smallest advertised exponent elsewhere."""
+    import warnings as _w
+    rng = random.Random(seed ^ 0xc0e)
+    out = []
+    fams = [("whfast", dict(integrator="whfast"), 2), ("whfast/dh", dict(integrator="whfast", coordinates=1), 2), ("whfast/c11", dict(integrator="whfast", corrector=11), 2),
+            ("saba/0x6", dict(integrator="saba", type=6), 4), ("leapfrog", dict(integrator="leapfrog"), 2), ("janus/4", dict(integrator="janus", order=4), 4),
+            ("mercurius", dict(integrator="mercurius"), 2), ("trace", dict(integrator="trace"), 2), ("eos/LF4", dict(integrator="eos", phi0=1, phi1=1, n=2), 4),
+            ("ias15", dict(integrator="ias15"), None), ("bs", dict(integrator="bs"), None)]
+    def rec(name, ok, errors, **kw):
+        out.append(dict(kw, name="corner/" + name, system_seed=seed, errors=errors, ok=bool(ok)))
+    def advance(sim, pt, T, n):
+        if pt["integrator"] in ("ias15", "bs"):
+            sim.dt = math.copysign(abs(T) / n, T); sim.integrate(sim.t + T, exact_finish_time=1)
+        else:
+            sim.dt = T / n; sim.steps(n); sim.synchronize()
+    with _w.catch_warnings():
+        _w.simplefilter("ignore")
+        for fname, pt, pmin in fams:
+            # (N = 0 is probed in child processes by the harness: tools/c01_history_probe.py n0 <integrator>)
+            # ---- N = 1: a free particle moves on a straight line, exactly
+            progress("corner/N=1 free particle/" + fname, options=pt)
+            try:
+                sim = rebound.Simulation(); sim.add(m=1.0, x=0.3, y=-0.2, z=0.1, vx=0.1, vy=0.2, vz=-0.05); configure(sim, pt)
+                advance(sim, pt, 1.0, 20)
+                p = sim.particles[0]
+                e = max(abs(p.x - (0.3 + 0.1 * sim.t)), abs(p.y - (-0.2 + 0.2 * sim.t)), abs(p.z - (0.1 - 0.05 * sim.t)), abs(p.vx - 0.1), abs(sim.t - 1.0))
+                rec("N=1 free particle/" + fname, e <= 1e-12, [e])
+            except Exception as ex_:
+                rec("N=1 free particle/" + fname, False, [float("nan")], exception=repr(ex_)[:120])
+            # ---- N = 2 and variants of the 3-body system: convergence against IAS15 (relative to the inner semi-major axis)
+            def variant(kind):
+                sim = rebound.Simulation()
+                G, M, a1, scale_t = 1.0, 1.0, 1.0, 1.0
+                if kind == "G=4pi^2":
+                    G = 4 * math.pi ** 2; scale_t = 1 / (2 * math.pi)
+                if kind == "SI units (1e30 kg, 1e11 m, seconds)":
+                    G, M, a1 = 6.674e-11, 2e30, 1.5e11; scale_t = math.sqrt(a1 ** 3 / (G * M))
+                if kind == "tiny units (M=1e-20, a=1e-10)":
+                    M, a1 = 1e-20, 1e-10; scale_t = math.sqrt(a1 ** 3 / (G * M))
+                sim.G = G
+                if kind == "t0=1e6":
+                    sim.t = 1e6
+                sim.add(m=M)
+                m1, m2 = (0.0, 0.0) if kind == "massless planets" else (8e-4 * M, 4e-4 * M)
+                e1 = {"e=0, inc=0": 0.0, "e=0.9": 0.9}.get(kind, 0.06)
+                sim.add(m=m1, a=a1, e=e1, inc=0.0 if kind == "e=0, inc=0" else 0.03, f=0.4 if kind != "e=0.9" else 2.5)
+                if kind != "N=2":
+                    sim.add(m=m2, a=(2.6 if kind == "e=0.9" else 1.9) * a1, e=0.0 if kind == "e=0, inc=0" else 0.04,
+                            inc=math.pi if kind == "inc=pi (retrograde)" else (0.0 if kind == "e=0, inc=0" else 0.02), f=3.0)
+                sim.move_to_com()
+                return sim, a1, scale_t
+            kinds = ["N=2", "massless planets", "e=0, inc=0", "inc=pi (retrograde)", "e=0.9", "G=4pi^2", "SI units (1e30 kg, 1e11 m, seconds)",
+                     "tiny units (M=1e-20, a=1e-10)", "t0=1e6"]
+            for kind in kinds:
+                if pmin is None and kind not in ("N=2", "massless planets", "e=0.9", "SI units (1e30 kg, 1e11 m, seconds)"):
+                    continue
+                progress("corner/%s/%s" % (kind, fname), options=pt)
+                try:
+                    refsim, a1, st = variant(kind)
+                    T = 2.0 * st * (-1 if rng.random() < 0.3 else 1)
+                    t0 = refsim.t
+                    refsim.integrator = "ias15"; refsim.integrate(t0 + T, exact_finish_time=1)
+                    ref = state(refsim)
+                    es = []
+                    n0 = {2: 32, 4: 16, None: 8}[pmin] * (8 if kind == "e=0.9" else 1)
+                    for mult in (1, 4):
+                        sim, _, _ = variant(kind); configure(sim, pt)
+                        if pt["integrator"] == "janus":     # the integer grid has to be chosen for the units in use (documented)
+                            sim.ri_janus.scale_pos = 1e-16 * a1; sim.ri_janus.scale_vel = 1e-16 * a1 / st
+                        advance(sim, pt, T, n0 * mult)
+                        es.append(err(state(sim), ref) / a1)
+                    floor = 1e-9 if kind == "t0=1e6" else 3e-11
+                    if pmin is None:
+                        ok = es[1] <= 1e-7
+                    else:
+                        margin = 1.0 if kind == "e=0.9" else 0.75
+                        ok = all(e == e for e in es) and (es[1] <= floor or math.log2(es[0] / es[1]) / 2 >= pmin - margin)
+                    rec("%s/%s" % (kind, fname), ok, es, T=T, steps=[n0, 4 * n0])
+                except Exception as ex_:
+                    rec("%s/%s" % (kind, fname), False, [float("nan")], exception=repr(ex_)[:120])
+            # ---- dt = 0, -0.0: nothing moves, nothing becomes NaN;  dt = NaN: the call returns
+            for dtv, nm in ((0.0, "dt=0"), (-0.0, "dt=-0.0"), (float("nan"), "dt=NaN")):
+                if pt["integrator"] in ("ias15", "bs") and nm == "dt=NaN":
+                    pass
+                progress("corner/%s/%s" % (nm, fname), options=pt)
+                try:
+                    sim = make_system(seed); configure(sim, pt); before = state(sim)
+                    sim.dt = dtv; sim.steps(2); sim.synchronize()
+                    after = state(sim)
+                    if nm == "dt=NaN":
+                        rec("%s/%s" % (nm, fname), True, [0.0])       # only: the call returns
+                    else:
+                        d = err(before, after)
+                        rec("%s/%s" % (nm, fname), d == d and d <= 1e-13, [d])
+                except Exception as ex_:
+                    rec("%s/%s" % (nm, fname), True, [0.0], exception=repr(ex_)[:80])
+        # ---- the same object after an error path: invalid option -> step (error) -> corrected option -> must equal a fresh object
+        for name, bad_, good, pt in (("saba invalid type", lambda s_: setattr(s_.ri_saba, "type", 0x77), lambda s_: setattr(s_.ri_saba, "type", 6), dict(integrator="saba", type=6)),
+                                     ("whfast invalid corrector", lambda s_: setattr(s_.ri_whfast, "corrector", 4), lambda s_: setattr(s_.ri_whfast, "corrector", 0), dict(integrator="whfast")),
+                                     ("whfast invalid kernel", lambda s_: setattr(s_.ri_whfast, "kernel", 7), lambda s_: setattr(s_.ri_whfast, "kernel", 0), dict(integrator="whfast")),
+                                     ("janus invalid order", lambda s_: setattr(s_.ri_janus, "order", 3), lambda s_: setattr(s_.ri_janus, "order", 4), dict(integrator="janus", order=4)),
+                                     ("whfast corrector with DH coordinates", lambda s_: (setattr(s_.ri_whfast, "corrector", 11), setattr(s_.ri_whfast, "coordinates", 1)),
+                                      lambda s_: (setattr(s_.ri_whfast, "corrector", 0), setattr(s_.ri_whfast, "coordinates", 0)), dict(integrator="whfast"))):
+            progress("corner/after-error/" + name, options=pt)
+            try:
+                a = make_system(seed); configure(a, pt); a.dt = 0.02
+                a.steps(3); a.synchronize()
+                bad_(a)
+                try:
+                    a.step()
+                except Exception:
+                    pass
+                good(a)
+                for _ in range(4):      # error messages queued by the failed step are raised by later calls of the Python layer: drain them
+                    try:
+                        a.synchronize(); break
+                    except Exception:
+                        pass
+                b = rebound.Simulation(); b.G = a.G; b.t = a.t
+                for p in a.particles:
+                    b.add(m=p.m, x=p.x, y=p.y, z=p.z, vx=p.vx, vy=p.vy, vz=p.vz)
+                configure(b, pt); b.dt = 0.02
+                a.dt = 0.02
+                a.steps(6); b.steps(6); a.synchronize(); b.synchronize()
+                d = err(state(a), state(b))
+                rec("after-error/" + name, d == d and d <= 1e-11 and abs(a.t - b.t) <= 1e-12, [d])
+            except Exception as ex_:
+                rec("after-error/" + name, False, [float("nan")], exception=repr(ex_)[:160])
+    return out
+
+
 def main():
     seed = int(sys.argv[1]); tier = sys.argv[2]
     only = sys.argv[3] if len(sys.argv) > 3 else None
@@ -582,8 +737,9 @@ def main():
     T0 = 3.0
     points, failures = [], []
     refs = {}
+    group = os.environ.get("C01_GROUP")          # None: everything; else one of lattice, adaptive, ode, warn, history, corners
     for si, ss in enumerate(sys_seeds):
-        for k, pt in enumerate(lattice(tier)):
+        for k, pt in enumerate(lattice(tier) if group in (None, "lattice") else []):
             if only and only not in pt["name"]:
                 continue
             signs = (1, -1) if (k + si) % 3 == 0 or tier != "quick" else (1,)
@@ -596,6 +752,7 @@ def main():
                     refs[key] = reference(ss, T, pt.get("tp", False), 1.0, tpcfg, edits)
                 es = []
                 for mult in (1, 2, 4):
+                    progress(pt["name"], system_seed=ss, T=T, steps=pt["n0"] * mult, options={k2: v for k2, v in pt.items() if k2 not in ("name", "pmin", "n0", "margin")})
                     st = run_fixed(ss, pt, T, pt["n0"] * mult)
                     es.append(err(st, refs[key]) if st is not None else float("nan"))
                 slopes = [math.log2(es[i] / es[i + 1]) if es[i + 1] > 0 and es[i] > 0 else float("inf") for i in range(2)]
@@ -620,7 +777,12 @@ def main():
                 if not ok:
                     failures.append(rec)
         if not only:
-            for a in adaptive_checks(ss, T0) + ode_checks(ss, tier) + warn_once_checks(ss, tier) + history_checks(ss, tier):
+            extra = []
+            for gname, fn in (("adaptive", lambda: adaptive_checks(ss, T0)), ("ode", lambda: ode_checks(ss, tier)), ("warn", lambda: warn_once_checks(ss, tier)),
+                              ("history", lambda: history_checks(ss, tier)), ("corners", lambda: corner_checks(ss, tier))):
+                if group in (None, gname):
+                    extra += fn()
+            for a in extra:
                 a["system_seed"] = ss
                 points.append(a)
                 if not a["ok"]:
